@@ -216,7 +216,9 @@ def conv_checks(part, doc, adapter, witness_base):
     if not jsonref.strict_equal(json.loads(text_in), doc):
         raise runner.HarnessError(f"stdlib json does not round-trip the generated document {doc!r}")
     conv = call(lambda: adapter.json_to_cel(doc))
-    routes = [("json_to_cel", conv), ("decoder", call(lambda: json.loads(text_in, cls=adapter.CELJSONDecoder)))]
+    # (third route: converting the converted value once more -- helper functions do that to sub-documents -- changes nothing)
+    routes = [("json_to_cel", conv), ("decoder", call(lambda: json.loads(text_in, cls=adapter.CELJSONDecoder))),
+              ("json_to_cel-twice", call(lambda: adapter.json_to_cel(adapter.json_to_cel(doc))))]
     for route, res in routes:
         part.case()
         part.outcome(f"classmap:{root}")
@@ -644,7 +646,7 @@ def run(ctx):
     strata = [Stratum(*s) for s in strata_for(ctx.tier)]
     ctx.rule = ("documents: every JSON term of exact depth d over arrays of length <= 2 and objects with <= 2 keys, per stratum "
                 + "; ".join(f"{s.name} (depth {s.depth}, {len(s.scalars)} scalars, keys {s.keys!r})" for s in strata)
-                + ". Per document 4 conversion cases (class/value tree via json_to_cel, via CELJSONDecoder; type-strict round trip via json.dumps and via json.dump "
+                + ". Per document 5 conversion cases (class/value tree via json_to_cel, via CELJSONDecoder, via json_to_cel applied twice; type-strict round trip via json.dumps and via json.dump "
                 "with CELJSONEncoder) and, per runner, one navigation case per (valid non-empty path, spelling) with [i], [\"k\"] and .k for identifier keys. "
                 "Encoder cases: whole-second instants x 5 offsets x 4 contexts, whole-second durations x 2 constructors x contexts, every byte string over A_b "
                 "up to length " + ("4" if ctx.thorough else "3") + " x 3 contexts. Histories: every sequence of <= %d operations (encode | iterencode of one of %d documents) on ONE CELJSONEncoder "
@@ -679,7 +681,7 @@ def run(ctx):
     for s in strata:
         nd, nw = s.cardinality()
         spaces[f"docs:{s.name}:conv"]["cardinality"] = nd
-        expected_cases += nd * (2 + len(ENCODE_ROUTES))
+        expected_cases += nd * (3 + len(ENCODE_ROUTES))
         if s.depth >= 1:
             for rk in ("I", "C"):
                 spaces[f"docs:{s.name}:nav-{rk}"]["cardinality"] = nd
